@@ -115,11 +115,21 @@ def run_C04(tier, seed):
             msg = pred_faithful(st["real"], ref)
             if msg:
                 out.append({"sig": msg.split(" ")[0] + "-" + msg.split(" ")[1], "what": msg, "step": idx}); break
+        # second clause: an unrestricted BFS / DFS from the root that reports completion, after whatever came before,
+        # leaves exactly the full diagram (same node spaces, all expanded, same successors and motifs)
+        if not out and hist and all(is_plain(o) for o in hist):
+            for idx, op in enumerate(hist):
+                if op[0] in ("bfs", "dfs") and list(op[1:]) == [None, None, None] and w["steps"][idx + 1]["real_result"] == "true":
+                    view = abs_view(w["steps"][idx + 1]["real"])
+                    stubs = sorted(sp for sp, x in view.items() if not x["exp"])
+                    if stubs:
+                        out.append({"sig": "continuation-leaves-stubs", "what": f"unrestricted {op[0]} after {hist[:idx]} returned True but left unexpanded nodes {stubs[:4]}", "step": idx + 1}); break
+                    if set(view) != set(ref):
+                        out.append({"sig": "continuation-differs", "what": f"unrestricted {op[0]} after {hist[:idx]}: node spaces differ from the fresh full diagram (missing {sorted(set(ref) - set(view))[:3]}, extra {sorted(set(view) - set(ref))[:3]})", "step": idx + 1}); break
         return out
     rng = random.Random(seed)
     res = _history_run("C04", tier, seed, PLAIN + ("cands", "seeds", "min", "blockplain", "aseeds"), 300, 5000, 6, 10, (100000, 100000, 100000, 2, 3, 5), pred, _nontrivial_hist,
                        "random interleavings of plain expansion ops (expand/bfs/dfs/min/target; random start nodes, level/stack/size limits, max_motifs_per_node in {default,2,3,5}) on random and modular networks; each history is followed by nothing else, the full reference comes from the model; non-trivial = final diagram has more than 2 nodes")
-    # second clause: continuing with unrestricted BFS gives the fresh diagram
     return res
 
 @register("C03")
